@@ -6,6 +6,8 @@ Strings and numbers that sit inside f-strings / expressions are guarded by `body
 on the normalised source of the function: if the statement changes, the translator refuses
 (a broken tie), and the literal emitted here is the one that statement holds."""
 
+import ast, re
+
 E = 'cnvlib/export.py'
 S = 'skgenome/tabio/seg.py'
 C = 'cnvlib/call.py'
@@ -157,6 +159,125 @@ def specs(T):
     if lab_nums != [1]:
         raise T.Refuse('%s:to_label: unexpected numeric literals %r' % (R, lab_nums))
 
+    # --- VCF text layer: header template, INFO keys, separators ------------------------------------
+    hdr = T.const_expr(E, 'VCF_HEADER')
+    if not (isinstance(hdr, ast.Call) and isinstance(hdr.func, ast.Attribute) and hdr.func.attr == 'format'
+            and not hdr.args and [(k.arg, ast.unparse(k.value)) for k in hdr.keywords]
+            == [('date', "time.strftime('%Y%m%d')"), ('version', '__version__')]):
+        raise T.Refuse("%s: VCF_HEADER is no longer <template>.format(date=time.strftime('%%Y%%m%%d'), version=__version__)" % E)
+    template = T.lit(hdr.func.value, 'VCF_HEADER')
+    if not template.endswith('\n'):
+        raise T.Refuse('%s: VCF_HEADER template does not end with a newline' % E)
+    header_template = []
+    for line in template[:-1].split('\n'):
+        chunks = []
+        for j, part in enumerate(re.split(r'\{(\w+)\}', line)):
+            if j % 2 == 1:
+                chunks.append((True, part))
+            elif part:
+                if '{' in part or '}' in part:
+                    raise T.Refuse('%s: VCF_HEADER: unexpected brace in %r' % (E, part))
+                chunks.append((False, part))
+        header_template.append(chunks)
+    T.body_contains(E, 'export_vcf', "table = pd.DataFrame.from_records(vcf_rows, columns=vcf_columns)")
+    T.body_contains(E, 'export_vcf', "vcf_body = table.to_csv(sep='\\t', header=True, index=False, float_format='%.3g')")
+    T.body_contains(E, 'export_vcf', "return (VCF_HEADER, vcf_body)")
+    vf = T.find_func(E, V)
+    info_flag, info_keys, info_sep, ci_parts = None, None, None, None
+    for n in ast.walk(vf):
+        if isinstance(n, ast.Assign) and isinstance(n.targets[0], ast.Name) and n.targets[0].id == 'fields' \
+                and isinstance(n.value, ast.List):
+            elts = n.value.elts
+            info_flag = T.lit(elts[0], 'fields[0]')
+            info_keys = []
+            for e in elts[1:]:
+                if not (isinstance(e, ast.JoinedStr) and len(e.values) == 2 and isinstance(e.values[0], ast.Constant)
+                        and isinstance(e.values[1], ast.FormattedValue) and e.values[1].conversion == -1
+                        and e.values[1].format_spec is None):
+                    raise T.Refuse('%s:%s: INFO field is not f"KEY={value}": %s' % (E, V, ast.unparse(e)))
+                info_keys.append(e.values[0].value)
+        if isinstance(n, ast.Call) and isinstance(n.func, ast.Attribute) and n.func.attr == 'join' \
+                and isinstance(n.func.value, ast.Constant) and ast.unparse(n.args[0]) == 'fields':
+            info_sep = n.func.value.value
+        if isinstance(n, ast.Call) and isinstance(n.func, ast.Attribute) and n.func.attr == 'extend' \
+                and ast.unparse(n.func.value) == 'fields':
+            ci_parts = []
+            for e in n.args[0].elts:
+                v = e.values if isinstance(e, ast.JoinedStr) else []
+                if not (len(v) == 5 and all(isinstance(v[i], ast.Constant) for i in (0, 2, 4))
+                        and all(isinstance(v[i], ast.FormattedValue) and v[i].conversion == -1 and v[i].format_spec is None
+                                for i in (1, 3))):
+                    raise T.Refuse('%s:%s: CI field is not f"KEY=({a},{b})": %s' % (E, V, ast.unparse(e)))
+                ci_parts.append((v[0].value, v[2].value, v[4].value))
+    if info_flag is None or info_sep is None or ci_parts is None or len(ci_parts) != 2 or info_keys is None or len(info_keys) != 6:
+        raise T.Refuse('%s:%s: INFO construction not found as expected' % (E, V))
+
+    # --- export_nexus_ogt ---------------------------------------------------------------------------
+    O = 'export_nexus_ogt'
+    T.body_contains(E, O, "if min_weight and 'weight' in cnarr:")
+    T.body_contains(E, O, "mask_low_weight = cnarr['weight'] < min_weight")
+    T.body_contains(E, O, "cnarr = cnarr[~mask_low_weight]")
+    T.body_contains(E, O, "bafs = varr.baf_by_ranges(cnarr)")
+    T.body_contains(E, O, "out_table = cnarr.data.reindex(columns=['chromosome', 'start', 'end', 'log2'])")
+    T.body_contains(E, O, "out_table = out_table.rename(columns={'chromosome': 'Chromosome', 'start': 'Position', "
+                          "'end': 'Position', 'log2': 'Log R Ratio'})")
+    T.body_contains(E, O, "out_table['B-Allele Frequency'] = np.asarray(bafs)")
+    ogt_min_weight = T.default(E, O, 'min_weight')
+    VY = 'cnvlib/vary.py'
+    if T.default_node(VY, 'VariantArray.baf_by_ranges', 'above_half').value is not None:
+        raise T.Refuse('%s: baf_by_ranges(above_half=...) default is no longer None' % VY)
+    ogt_boost = T.default(VY, 'VariantArray.baf_by_ranges', 'tumor_boost')
+    if ast.unparse(T.default_node(VY, 'VariantArray.baf_by_ranges', 'summary_func')) != 'np.nanmedian':
+        raise T.Refuse('%s: baf_by_ranges(summary_func=...) default is no longer np.nanmedian' % VY)
+
+    # --- export_theta / ref_means_nbins / theta_read_counts --------------------------------------------
+    H = 'export_theta'
+    T.body_contains(E, H, "out_columns = ['#ID', 'chrm', 'start', 'end', 'tumorCount', 'normalCount']")
+    T.body_contains(E, H, "if not tumor_segs:\n        return pd.DataFrame(columns=out_columns)")
+    T.body_contains(E, H, "xy_names = []\n    tumor_segs = tumor_segs.autosomes(also=xy_names)\n    if normal_cn:\n"
+                          "        normal_cn = normal_cn.autosomes(also=xy_names)")
+    T.body_contains(E, H, "table = tumor_segs.data.reindex(columns=['start', 'end'])")
+    T.body_contains(E, H, "chr2idx = {c: i + 1 for i, c in enumerate(tumor_segs.chromosome.drop_duplicates())}")
+    T.body_contains(E, H, "table['chrm'] = tumor_segs.chromosome.map(chr2idx)")
+    T.body_contains(E, H, "table['#ID'] = [f'start_{row.chrm}_{row.start}:end_{row.chrm}_{row.end}' "
+                          "for row in table.itertuples(index=False)]")
+    T.body_contains(E, H, "ref_means, nbins = ref_means_nbins(tumor_segs, normal_cn)")
+    T.body_contains(E, H, "table['tumorCount'] = theta_read_counts(tumor_segs.log2, nbins)")
+    T.body_contains(E, H, "table['normalCount'] = theta_read_counts(ref_means, nbins)")
+    T.body_contains(E, H, "return table[out_columns]")
+    if T.numbers_in(E, H) != [1]:
+        raise T.Refuse('%s:%s: unexpected numeric literals %r' % (E, H, T.numbers_in(E, H)))
+    RM = 'ref_means_nbins'
+    T.body_contains(E, RM, "if normal_cn:\n        log2s_in_segs = [bins['log2'] for _seg, bins in normal_cn.by_ranges(tumor_segs)]\n"
+                           "        ref_means = np.array([s.mean() for s in log2s_in_segs])\n"
+                           "        if 'probes' in tumor_segs:\n            nbins = tumor_segs['probes']\n"
+                           "        else:\n            nbins = np.array([len(s) for s in log2s_in_segs])")
+    T.body_contains(E, RM, "ref_means = np.zeros(len(tumor_segs))")
+    T.body_contains(E, RM, "if 'weight' in tumor_segs and (tumor_segs['weight'] > 1.0).any():\n"
+                           "            nbins = tumor_segs['weight']\n            nbins /= nbins.max() / nbins.mean()")
+    T.body_contains(E, RM, "if 'probes' in tumor_segs:\n                nbins = tumor_segs['probes']")
+    T.body_contains(E, RM, "sizes = tumor_segs.end - tumor_segs.start\n                nbins = sizes / sizes.mean()")
+    T.body_contains(E, RM, "if 'weight' in tumor_segs:\n                nbins *= tumor_segs['weight'] / tumor_segs['weight'].mean()")
+    T.body_contains(E, RM, "return (ref_means, nbins)")
+    theta_new_weight = T.compare_with(E, RM, "tumor_segs['weight']", 'Gt')
+    RC = 'theta_read_counts'
+    T.body_contains(E, RC, "read_depth = 2 ** log2_ratio * avg_depth")
+    T.body_contains(E, RC, "read_count = nbins * avg_bin_width * read_depth / read_len")
+    T.body_contains(E, RC, "return read_count.round().fillna(0).astype('int')")
+    theta_depth = T.default(E, RC, 'avg_depth')
+    theta_bin_width = T.default(E, RC, 'avg_bin_width')
+    theta_read_len = T.default(E, RC, 'read_len')
+    theta_nan_count = 0          # the `.fillna(0)` of the statement guarded just above
+    G = 'skgenome/gary.py'
+    auto_pat = T.call_arg(G, 'GenomicArray.autosomes', 'str.match', 0)
+    T.body_contains(G, 'GenomicArray.autosomes', "if not is_auto.any():\n        return self")
+    T.body_contains(G, 'GenomicArray.autosomes', "for a_chrom in also:\n                is_auto |= self.chromosome == a_chrom")
+    T.body_contains(G, 'GenomicArray.autosomes', "return self[is_auto]")
+    T.body_contains('cnvlib/cnary.py', 'CopyNumArray.autosomes', "return super().autosomes(also=also)")
+    if T.default_node(G, 'GenomicArray.by_ranges', 'mode').value != 'outer' \
+            or T.default_node(G, 'GenomicArray.by_ranges', 'keep_empty').value is not True:
+        raise T.Refuse('%s: by_ranges defaults are no longer mode="outer", keep_empty=True' % G)
+
     return {'ExportDefaults': [
         ('show_ploidy', 'string', shows[0][1]),
         ('show_variant', 'string', shows[1][1]),
@@ -198,4 +319,24 @@ def specs(T):
         ('jtv_header', 'list string', ['CloneID', 'Name']),
         ('jtv_clone', 'string', 'IMAGE:'),
         ('nexus_label_off', 'Z', lab_nums[0]),
+        ('vcf_header_template', 'list (list (bool * string))', header_template),
+        ('vcf_ph_date', 'string', 'date'),
+        ('vcf_ph_version', 'string', 'version'),
+        ('info_flag', 'string', info_flag),
+        ('info_keys', 'list string', info_keys),
+        ('info_sep', 'string', info_sep),
+        ('info_cipos', 'string * string * string', ci_parts[0]),
+        ('info_ciend', 'string * string * string', ci_parts[1]),
+        ('ogt_min_weight_default', 'Q', ogt_min_weight),
+        ('ogt_tumor_boost', 'bool', ogt_boost),
+        ('ogt_header', 'list string', ['Chromosome', 'Position', 'Position', 'Log R Ratio', 'B-Allele Frequency']),
+        ('theta_header', 'list string', ['#ID', 'chrm', 'start', 'end', 'tumorCount', 'normalCount']),
+        ('theta_first_chrm', 'Z', T.numbers_in(E, H)[0]),
+        ('theta_id_parts', 'list string', ['start_', '_', ':end_', '_']),
+        ('theta_new_weight_above', 'Q', theta_new_weight),
+        ('theta_depth', 'Z', theta_depth),
+        ('theta_bin_width', 'Z', theta_bin_width),
+        ('theta_read_len', 'Z', theta_read_len),
+        ('theta_nan_count', 'Z', theta_nan_count),
+        ('theta_autosome_pattern', 'string', auto_pat),
     ]}
